@@ -11,20 +11,20 @@ CHECKS = {
          "property lists over an 8-element alphabet (quick: length <= 3, thorough: <= 5), six spec-rendered worlds (with a composition that depends on the finished world's temperature), 8 probes, 2D and 3D; the repository's own worlds as opaque files; simulated documents of the world-file grammar Gen.tla (twin bitwise, block vs stand-alone, reversed list); every second harness process with environment queries on decoy worlds; " + NOTE,
          "TLA+/TLC model checking of layout + life-cycle spec (C01.tla); replay of TLC-generated behaviours into the real code, bitwise comparison"),
  "C02": ("model_checking",
-         "TLC enumerates every feature stack from the catalogue of Paint.tla, proves the oracle's own locality / permutation / last-covering-tag theorems on each, and each stack is rendered, built and queried in the real library with exact comparison against the specified fold.",
+         "TLC enumerates every feature stack from the catalogue of Paint.tla, proves the oracle's own locality / permutation / last-covering-tag theorems on each, and each stack is rendered, built and queried in the real library with exact comparison against the specified fold. Additionally every document of the world-file grammar Gen.tla (<= 3 features of any type, depth surfaces, every deterministic model) is built with all its sub-documents: the sub-document of the features that contain a point must answer bit for bit like the full document, with the tag of the last of them.",
          "stacks of <= 2 features exhaustively (thorough: full catalogue at both positions plus simulated stacks of 3-4); uniform models in the stacks, lists of two models of a kind, and every kind of composition model over a painted base for the unlisted labels; " + NOTE,
-         "TLA+/TLC model checking of the paint-fold spec (Paint.tla); replay with exact expected values"),
+         "TLA+/TLC model checking of the paint-fold spec (Paint.tla) and the world-file grammar (Gen.tla, subset oracle); replay with exact expected values"),
  "C03": ("model_checking",
-         "TLC checks that the transcribed fill / early-return / fold / re-imposition mechanism refines the specified background and forced-surface rule for every configuration, and every configuration (thermal constants x gravity x coordinate system x forced x feature set) is replayed at five depths with five property lists; additionally the outside probe of every Paint.tla stack.",
+         "TLC checks that the transcribed fill / early-return / fold / re-imposition mechanism refines the specified background and forced-surface rule for every configuration, and every configuration (thermal constants x gravity x coordinate system x forced x feature set) is replayed at five depths with five property lists; additionally the outside probe of every Paint.tla stack, and for the documents of the world-file grammar Gen.tla every lattice point no feature contains must be answered like the document without features.",
          "constants from small sets; every history of 4 / 6 queries against three live worlds with different constants; " + NOTE,
-         "TLA+/TLC (Background.tla, Paint.tla) + replay with evaluated closed-form terms"),
+         "TLA+/TLC (Background.tla, Paint.tla, Gen.tla subset oracle) + replay with evaluated closed-form terms"),
  "C04": ("model_checking",
          "TLC builds every simple polygon with up to MaxV vertices on the lattice and checks, for every probe of the doubled lattice, that the transcribed winding-number code equals the definitional closed-polygon predicate; each polygon is replayed as the footprint of the three area-feature types with exact (integer-metre) boundary probes and depth-interval probes. Plume tables: TLC decides interval, fraction and cyclic-angle branch exactly and emits the ellipse function as a term the harness evaluates.",
          "4x4 lattice, 3-4 vertices quick / 5 thorough, Cartesian and spherical (also across / beyond the +-180 meridian); plume tables of 1-2 sections (3 simulated), spherical ones also shifted across / beyond the meridian; local depth intervals given at points; membership within 1e-6 of a curved boundary not asserted; " + NOTE,
          "TLA+/TLC (Extent.tla Mech=Prop, Plume.tla) + replay of every polygon / table"),
  "C05": ("exploration",
          "Exploration with a model-derived oracle: Models.tla states each documented closed form as a symbolic term, TLC enumerates model x feature type x sentinel pattern x relation of the model's depth range to the feature's x operation and resolves every discrete branch exactly (which sentinel means 'adiabatic / global', which bounds are the local top and bottom, inside or outside the model's own range); the real library is queried and compared with the term evaluated by a generic evaluator (1e-9 relative; 1e-8 for the 100-term series).",
-         "TLC decides the case analysis, not the arithmetic; 374 cases in 11 families; tian2019, mass conserving and slab plate-model temperatures have no documented closed form and are not claimed; " + NOTE,
+         "TLC decides the case analysis, not the arithmetic; 398 cases in 12 families; mass conserving and slab plate-model temperatures have no documented closed form and are not claimed; the tian2019 parameterisation is transcribed and replayed (192 cases) but, not being in the property's list, reported as information only; " + NOTE,
          "TLA+ case enumeration with symbolic closed-form terms (Models.tla) + replay with numeric comparison"),
  "C06": ("model_checking",
          "Slab.tla constructs the slab / fault surface of a straight trench in the perpendicular plane with Pythagorean dips, so that for every lattice point TLC decides exactly which segment carries the foot, the signed distance from and the distance along the surface, and membership (thickness and top truncation varying linearly along each segment); every world x point is replayed against World::distance_to_plane (1e-6 relative + 1 m) and against membership (composition and tag), leaving out only points where an inequality is tight or the nearest segment is ambiguous.",
